@@ -336,7 +336,7 @@ Definition audit_table : list (string * string * nat * string * list string) := 
   ("x/gov/keeper.Keeper.GetAverageVotesSlash", "quo", 1%nat, "guarded: returns zero when there is no Yes vote (totalCount == 0) before dividing by the Yes-vote count; exercised by the gov-vote-patterns histories (every vote pattern, run past the enactment end)", ["b15566c2f50370ff"]);
   ("x/gov/keeper.Keeper.GetExecutionFee", "must", 1%nat, "decodes bytes (or re-parses an address) that this module stored itself with the matching Marshal -- audited by kind", ["fb0366212ba58bd0"]);
   ("x/gov/keeper.Keeper.GetNetworkActorByAddress", "must", 1%nat, "decodes bytes (or re-parses an address) that this module stored itself with the matching Marshal -- audited by kind", ["a6034344f4445b9f"]);
-  ("x/gov/keeper.Keeper.GetNetworkActorOrFail", "panic", 1%nat, "unreachable: permission/role index entries are written and removed together with the actor record (C07 refinement)", ["3368f8be08283503"]);
+  ("x/gov/keeper.Keeper.GetNetworkActorOrFail", "panic", 1%nat, "unreachable while every WRITER keeps the permission / role index entries and the actor record together: x/gov keeper (AddWhitelistPermission, RemoveWhitelistedPermission, AssignRoleToActor, UnassignRoleFromActor, SaveNetworkActor, DeleteNetworkActor) and, outside x/gov, the address-rotation blocks of x/recovery msgServer.RotateRecoveryAddress / RotateValidatorByHalfRRTokenHolder, which move actor, roles and individual permission index entries -- those callers are pinned in foreign_writer_pins (C06_foreign_writers_unchanged); exercised by the actor-perturbation histories", ["3368f8be08283503"]);
   ("x/gov/keeper.Keeper.GetNetworkActorsByAbsoluteWhitelistPermission", "index", 2%nat, "map lookup or index bounded by the enclosing loop / length check", ["b939a5d0ed92fdf9"]);
   ("x/gov/keeper.Keeper.GetNetworkProperties", "must", 1%nat, "decodes bytes (or re-parses an address) that this module stored itself with the matching Marshal -- audited by kind", ["0f5cfad58d8cfa37"]);
   ("x/gov/keeper.Keeper.GetPermissionsForRole", "must", 1%nat, "decodes bytes (or re-parses an address) that this module stored itself with the matching Marshal -- audited by kind", ["37832a867beaeb33"]);
@@ -523,6 +523,17 @@ Definition audit_table : list (string * string * nat * string * list string) := 
   ("x/upgrade/keeper.Keeper.SaveCurrentPlan", "panic", 1%nat, "unreachable: guards a store / codec invariant (record written together with its index)", ["2375fe2d93f5e3c7"]);
   ("x/upgrade/keeper.Keeper.setNextPlan", "panic", 1%nat, "unreachable: guards a store / codec invariant (record written together with its index)", ["d4933c66b4ada575"])
 ].
+Definition foreign_writer_pins : list (string * list string) := [
+  ("x/distributor/keeper.Keeper.AllocateTokens", ["c0e9761d3225cd13"]);
+  ("x/distributor/keeper.Keeper.AllocateTokensToValidator", ["d166782fbccf4749"]);
+  ("x/layer2/keeper.msgServer.MintCreateFtTx", ["9aadda9fdbc648ef"]);
+  ("x/layer2/keeper.msgServer.MintCreateNftTx", ["ba376a5f0f7d37d0"]);
+  ("x/multistaking/keeper.Keeper.SlashStakingPool", ["3659416c5742f268"]);
+  ("x/recovery/keeper.msgServer.RotateRecoveryAddress", ["253b1af893e5cf45"]);
+  ("x/recovery/keeper.msgServer.RotateValidatorByHalfRRTokenHolder", ["994ac9f5b9dca6d0"]);
+  ("x/slashing/keeper.msgServer.RefuteSlashingProposal", ["4942680cc029f6b1"]);
+  ("x/staking/teststaking.Helper.CreateValidator", ["dd9c4f2dc40f0aa9"])
+].
 
 Definition entry_matches (s : string * string * string * string * nat) (e : string * string * nat * string * list string) : bool :=
   let '(_, fn, _, kind, ord) := s in let '(efn, ekind, n, _, _) := e in
@@ -548,6 +559,22 @@ Proof. vm_compute. reflexivity. Qed.
 Theorem C06_audited_functions_unchanged : changed_audited_functions = [].
 Proof. exact audited_functions_unchanged. Qed.
 Print Assumptions C06_audited_functions_unchanged.
+
+(* Verdicts such as "the index is consistent by construction" also rest on the code of OTHER modules that write
+   that state (e.g. the address-rotation blocks of x/recovery rewriting gov actors and permission indexes).
+   gen_panics lists every function calling a writer method of another module; each is pinned by fingerprint,
+   and a new such caller is not pinned at all. *)
+Fixpoint pin_lookup (fn : string) (l : list (string * list string)) : option (list string) :=
+  match l with [] => None | (f, hs) :: r => if String.eqb f fn then Some hs else pin_lookup fn r end.
+Definition foreign_ok (w : string * string * string) : bool :=
+  let '(fn, _, fp) := w in match pin_lookup fn foreign_writer_pins with Some hs => str_in fp hs | None => false end.
+Definition changed_foreign_writers : list string :=
+  map (fun w => let '(fn, _, _) := w in fn) (filter (fun w => negb (foreign_ok w)) foreign_writers).
+Lemma foreign_writers_unchanged : changed_foreign_writers = [].
+Proof. vm_compute. reflexivity. Qed.
+Theorem C06_foreign_writers_unchanged : changed_foreign_writers = [].
+Proof. exact foreign_writers_unchanged. Qed.
+Print Assumptions C06_foreign_writers_unchanged.
 
 Theorem C06_panic_sites_accounted : gen_errors = [] /\ forallb (fun s => covered s || audited s) sites = true.
 Proof. exact panic_sites_accounted. Qed.
